@@ -54,6 +54,12 @@ CHECKS = {
  "C11": ("exploration", "programs of up to 24 editing operations with random arguments are interpreted against lopdf on generated well-formed documents; after every step independent code (own reachability, page-tree walk, reference stripping, effective-resources lookup, marker-based identity through renumbering) checks fresh ids, the frame condition on all previously reachable objects, deletion/prune exactness, Counts, page content and resource monotonicity",
          "trusted: the interpreter's per-operation expectations (documented effects) and its analyses; CANON",
          "model-based / stateful property testing (proptest: vec of operations + interpreter, invariants after every step)"),
+ "C05": ("exploration", "generated documents x every supported handler version, key length, crypt-filter assignment (incl. predefined Identity and per-stream Crypt overrides), EncryptMetadata, permissions and password classes; encrypt then decrypt with user AND owner password, in memory and through save/load, must restore every string and stream; ciphertext must differ from plaintext; wrong passwords must be rejected without side effects",
+         "trusted: the harness's reading of which strings/streams a filter applies to (ISO 32000-1 7.6.1, 7.6.5); independent password preparation tables; CANON",
+         "property-based testing (proptest), round-trip oracle plus negative (wrong password) oracle"),
+ "C06": ("exploration", "differential testing in both directions against an independent implementation of ISO 32000 Algorithms 1-13 over own MD5/SHA-2/AES/RC4 (known-answer tested): lopdf-encrypted documents (memory and saved file via the strict reader) must open in the reference with both passwords and valid /Perms; reference-encrypted files rendered by the reference writer must open in lopdf with both passwords",
+         "trusted: REF-SEC and its primitives (KATs from hashlib/openssl), REF-W, STRICT-R; SASLprep/PDFDocEncoding tables from Python",
+         "differential property-based testing (proptest) against an independent reference security handler, both directions"),
 }
 NA = {}
 def main():
